@@ -10,9 +10,10 @@ comparisons, `if`/`else`, `for` with and without condition, `break`, `continue`,
 
 * `expr_correct` — the instructions compiled from an expression, run by the stack machine, push
   exactly the value Go's left-to-right evaluation gives, and panic exactly when it panics;
-* `assign_correct`, `cond_correct` — the code of `x = e` stores the value converted to the
-  variable's type and leaves the operand stack as it was; the code of a comparison yields the
-  boolean the following jump consumes;
+* `assign_correct`, `cond_correct`, `bexpr_correct` — the code of `x = e` stores the value
+  converted to the variable's type and leaves the operand stack as it was; the code of a condition —
+  comparisons combined with `&&`, `||`, `!` to any depth — yields Go's short-circuit value (an
+  operand Go does not evaluate is jumped over and cannot panic) for the following jump to consume;
 * `source_to_value` — parser and compiler composed: the tokens of an expression's Go spelling are
   parsed (binding powers regenerated from symbol.go, C05) to a tree from which exactly the
   expression is recovered, and its code computes its Go value;
@@ -101,6 +102,133 @@ theorem cond_correct (c : Cond) (σ : St V) :
       simp only [Option.map_some, Option.bind_some]
       cases h : P.cmp c.op x y <;> simp [h]
 
+/-! ### boolean conditions with short-circuit operators -/
+
+theorem runJ_nil (σ : St V) : runJ P [] σ = some σ := by rw [runJ]
+
+theorem runJ_plain (i : Instr) (rest : List Instr) (σ : St V) (h1 : i.op ≠ "AND") (h2 : i.op ≠ "OR")
+    (h3 : i.op ≠ "NOT") (h4 : cmpOfCode i.op = none) :
+    runJ P (i :: rest) σ = (step1 P i σ).bind (runJ P rest) := by
+  rw [runJ]; simp [h1, h2, h3, h4]
+
+theorem binop_plain (op : BinOp) : op.code ≠ "AND" ∧ op.code ≠ "OR" ∧ op.code ≠ "NOT" ∧ cmpOfCode op.code = none := by
+  cases op <;> decide
+
+/-- value code inside condition code: the jump-aware machine runs it like the plain one -/
+theorem runJ_compileE (e : Expr) (X : List Instr) (σ : St V) :
+    runJ P (compileE e ++ X) σ = (evalE P σ.locals e).bind fun v => runJ P X { σ with ops := v :: σ.ops } := by
+  induction e generalizing X σ with
+  | lit k =>
+    simp only [compileE, List.cons_append, List.nil_append, evalE, Option.bind_some]
+    rw [runJ_plain P _ _ _ (by simp [ins]) (by simp [ins]) (by simp [ins]) (by simp [ins, cmpOfCode])]
+    simp [step1, ins]
+  | loc i =>
+    simp only [compileE, List.cons_append, List.nil_append, evalE]
+    rw [runJ_plain P _ _ _ (by simp [ins]) (by simp [ins]) (by simp [ins]) (by simp [ins, cmpOfCode])]
+    have h1 : ("LOCALGET" = "PUSH") = False := by decide
+    have h2 : ¬ ((i : Int) < 0) := by omega
+    simp only [step1, ins, h1, if_false, if_true, h2, Int.toNat_natCast]
+    cases σ.locals[i]? <;> simp
+  | bin op a b iha ihb =>
+    simp only [compileE, List.append_assoc, evalE]
+    rw [iha]
+    cases ha : evalE P σ.locals a with
+    | none => simp
+    | some x =>
+      simp only [Option.bind_some]
+      rw [ihb]
+      cases hb : evalE P σ.locals b with
+      | none => simp
+      | some y =>
+        obtain ⟨p1, p2, p3, p4⟩ := binop_plain op
+        simp only [Option.bind_some, List.cons_append, List.nil_append]
+        rw [runJ_plain P _ _ _ (by simpa [ins] using p1) (by simpa [ins] using p2) (by simpa [ins] using p3) (by simpa [ins] using p4)]
+        have ⟨n1, n2, n3⟩ := (show op.code ≠ "PUSH" ∧ op.code ≠ "LOCALGET" ∧ op.code ≠ "LOCALSET" by cases op <;> decide)
+        have hb' : binOfCode op.code = some op := by cases op <;> decide
+        simp only [step1, ins, n1, n2, n3, if_false, hb']
+        cases hbin : P.bin op x y <;> simp [hbin]
+
+theorem cmp_plain (op : CmpOp) : op.code ≠ "AND" ∧ op.code ≠ "OR" ∧ op.code ≠ "NOT" ∧ cmpOfCode op.code = some op := by
+  cases op <;> decide
+
+theorem runJ_cond (c : Cond) (X : List Instr) (σ : St V) :
+    runJ P (compileCond c ++ X) σ =
+      (evalCond P σ.locals c).bind fun b => runJ P X { σ with ops := P.ofBool b :: σ.ops } := by
+  simp only [compileCond, List.append_assoc, evalCond]
+  rw [runJ_compileE]
+  cases evalE P σ.locals c.a with
+  | none => simp
+  | some x =>
+    simp only [Option.bind_some]
+    rw [runJ_compileE]
+    cases evalE P σ.locals c.b with
+    | none => simp
+    | some y =>
+      obtain ⟨p1, p2, p3, p4⟩ := cmp_plain c.op
+      simp only [Option.bind_some, List.cons_append, List.nil_append]
+      rw [runJ]
+      simp [ins, p1, p2, p3, p4]
+
+/-- **bexpr_correct.** The code of a boolean condition — comparisons combined with `&&`, `||` and
+    `!` to any depth — leaves exactly Go's short-circuit value on the stack and then continues with
+    whatever follows; an operand that Go does not evaluate is jumped over (and cannot panic). -/
+theorem bexpr_correct (hP : ∀ b, P.truth (P.ofBool b) = b) (b : BExpr) (X : List Instr) (σ : St V) :
+    runJ P (compileB b ++ X) σ =
+      (evalB P σ.locals b).bind fun v => runJ P X { σ with ops := P.ofBool v :: σ.ops } := by
+  induction b generalizing X σ with
+  | cmp c => simp only [compileB, evalB]; exact runJ_cond P c X σ
+  | and a b iha ihb =>
+    simp only [compileB, List.append_assoc, evalB]
+    rw [iha]
+    cases ha : evalB P σ.locals a with
+    | none => simp
+    | some va =>
+      simp only [Option.bind_some, List.cons_append, List.nil_append]
+      rw [runJ]
+      cases va with
+      | true =>
+        simp only [ins, hP, true_or, if_true, Bool.not_true, Bool.false_eq_true, and_false, false_or,
+          reduceCtorEq, and_true, or_self, if_false]
+        have : ("AND" = "OR") = False := by decide
+        simp only [this, false_and, if_false]
+        rw [ihb]
+      | false =>
+        simp only [ins, hP, true_or, if_true, Bool.not_false, and_true]
+        have hn : ((compileB b).length : Int).toNat = (compileB b).length := by simp
+        simp only [hn, List.drop_left]
+        rfl
+  | or a b iha ihb =>
+    simp only [compileB, List.append_assoc, evalB]
+    rw [iha]
+    cases ha : evalB P σ.locals a with
+    | none => simp
+    | some va =>
+      simp only [Option.bind_some, List.cons_append, List.nil_append]
+      rw [runJ]
+      cases va with
+      | false =>
+        have h1 : ("OR" = "AND") = False := by decide
+        simp only [ins, hP, or_true, if_true, h1, false_and, Bool.false_eq_true, and_false, or_self, if_false]
+        rw [ihb]
+      | true =>
+        have h1 : ("OR" = "AND") = False := by decide
+        simp only [ins, hP, or_true, if_true, h1, false_and, and_self, false_or]
+        have hn : ((compileB b).length : Int).toNat = (compileB b).length := by simp
+        simp only [hn, List.drop_left]
+        rfl
+  | not a iha =>
+    simp only [compileB, List.append_assoc, evalB]
+    rw [iha]
+    cases ha : evalB P σ.locals a with
+    | none => simp
+    | some va =>
+      simp only [Option.bind_some, List.cons_append, List.nil_append, Option.map_some]
+      rw [runJ]
+      have h1 : ("NOT" = "AND") = False := by decide
+      have h2 : ("NOT" = "OR") = False := by decide
+      simp [ins, h1, h2, hP]
+
+
 /-! ### the control-flow level -/
 
 theorem compileE_noPH (e : Expr) : ∀ i ∈ compileE e, isPH i = false := by
@@ -117,6 +245,39 @@ theorem compileE_noPH (e : Expr) : ∀ i ∈ compileE e, isPH i = false := by
 
 theorem compileE_ne (e : Expr) : compileE e ≠ [] := by
   cases e <;> simp [compileE]
+
+theorem compileB_noPH (b : BExpr) : ∀ i ∈ compileB b, isPH i = false := by
+  induction b with
+  | cmp c =>
+    intro i hi
+    simp only [compileB, compileCond, List.mem_append, List.mem_singleton] at hi
+    rcases hi with (h' | h') | h'
+    · exact compileE_noPH _ i h'
+    · exact compileE_noPH _ i h'
+    · subst h'; cases c.op <;> decide
+  | and a b iha ihb =>
+    intro i hi
+    simp only [compileB, List.mem_append, List.mem_singleton] at hi
+    rcases hi with (h' | h') | h'
+    · exact iha i h'
+    · subst h'; rfl
+    · exact ihb i h'
+  | or a b iha ihb =>
+    intro i hi
+    simp only [compileB, List.mem_append, List.mem_singleton] at hi
+    rcases hi with (h' | h') | h'
+    · exact iha i h'
+    · subst h'; rfl
+    · exact ihb i h'
+  | not a iha =>
+    intro i hi
+    simp only [compileB, List.mem_append, List.mem_singleton] at hi
+    rcases hi with h' | h'
+    · exact iha i h'
+    · subst h'; rfl
+
+theorem compileB_ne (b : BExpr) : compileB b ≠ [] := by
+  cases b <;> simp [compileB, compileCond]
 
 theorem leavesOK (p : Prog) : LeavesOK (sem P p) (leaves p) where
   act_noPH n i hi := by
@@ -135,16 +296,13 @@ theorem leavesOK (p : Prog) : LeavesOK (sem P p) (leaves p) where
       simp only [h, List.mem_cons, List.mem_nil_iff, or_false] at hi
       rcases hi with rfl | rfl | rfl <;> decide
     | some k =>
-      simp only [h, compileCond, List.mem_append, List.mem_singleton] at hi
-      rcases hi with (h' | h') | h'
-      · exact compileE_noPH _ i h'
-      · exact compileE_noPH _ i h'
-      · subst h'; cases k.op <;> decide
+      simp only [h] at hi
+      exact compileB_noPH k i hi
   cnd_ne c := by
     simp only [leaves]
     cases p.cnds[c]? with
     | none => simp
-    | some k => simp [compileCond]
+    | some k => exact compileB_ne k
   act_empty n h s := by
     simp only [leaves] at h
     cases hn : p.acts[n]? with
@@ -171,12 +329,12 @@ theorem minigo_correct (p : Prog) (l : List V) (st' : Option (List V))
     instruction-level machine does on that leaf's code: an assignment's code turns the locals into
     `(sem P p).act n`, a condition's code yields `(sem P p).cval c` and leaves everything else
     alone; a panic in either is the absorbing state `none`. -/
-theorem leaf_steps_are_real (p : Prog) (l ops : List V) :
+theorem leaf_steps_are_real (hP : ∀ b, P.truth (P.ofBool b) = b) (p : Prog) (l ops : List V) :
     (∀ n a, p.acts[n]? = some a →
       (run P ((leaves p).act n) { locals := l, ops := ops }).map (·.locals) = (sem P p).act n (some l) ∧
       ∀ σ', run P ((leaves p).act n) { locals := l, ops := ops } = some σ' → σ'.ops = ops) ∧
     (∀ c k, p.cnds[c]? = some k →
-      runCond P ((leaves p).cnd c) { locals := l, ops := ops } =
+      runCondJ P ((leaves p).cnd c) { locals := l, ops := ops } =
         if (sem P p).ceff c (some l) = none then none
         else some ((sem P p).cval c (some l), { locals := l, ops := ops })) := by
   constructor
@@ -189,10 +347,13 @@ theorem leaf_steps_are_real (p : Prog) (l ops : List V) :
       | none => simp [he] at h
       | some l' => simp [he] at h; subst h; rfl
   · intro c k hk
-    simp only [leaves, sem, hk, cond_correct]
-    cases evalCond P l k with
+    simp only [leaves, sem, hk, runCondJ]
+    have := bexpr_correct P hP k [] { locals := l, ops := ops }
+    simp only [List.append_nil, runJ_nil] at this
+    rw [this]
+    cases evalB P l k with
     | none => simp
-    | some b => simp
+    | some b => simp [hP]
 
 /-! ### non-vacuity: `x = x + 1; if x > 2 { x = 0 }` on unbounded integers -/
 
@@ -206,23 +367,42 @@ def intPrims : Prims Int where
     | .lt => some (decide (a < b)) | .lte => some (decide (a ≤ b)) | .gt => some (decide (a > b))
     | .gte => some (decide (a ≥ b)) | .eq => some (decide (a = b)) | .neq => some (decide (a ≠ b))
   assignTo v _ := v
+  ofBool b := if b then 1 else 0
+  truth v := v ≠ 0
 
 def demo : Prog :=
   { acts := [⟨0, .bin .add (.loc 0) (.lit 1)⟩, ⟨0, .lit 0⟩],
-    cnds := [⟨.gt, .loc 0, .lit 2⟩],
+    cnds := [.and (.not (.cmp ⟨.eq, .loc 0, .lit 0⟩)) (.cmp ⟨.gt, .bin .div (.lit 6) (.loc 0), .lit 1⟩)],
     body := .seq (.act 0) (.ift 0 (.act 1)) }
 
+-- x = x + 1; if !(x == 0) && 6/x > 1 { x = 0 }
 example : (compileProg demo).map (fun i => (i.op, i.a)) =
     [("LOCALGET", 0), ("PUSH", 1), ("ADD", 0), ("LOCALSET", 0),
-     ("LOCALGET", 0), ("PUSH", 2), ("GT", 0), ("JUMPFALSE", 2), ("PUSH", 0), ("LOCALSET", 0)] := by decide
+     ("LOCALGET", 0), ("PUSH", 0), ("EQ", 0), ("NOT", 0), ("AND", 5),
+     ("PUSH", 6), ("LOCALGET", 0), ("DIV", 0), ("PUSH", 1), ("GT", 0),
+     ("JUMPFALSE", 2), ("PUSH", 0), ("LOCALSET", 0)] := by decide
 
 example : ∀ i ∈ compileProg demo, isPH i = false := by decide
 
-/-- Go's semantics: from x = 2 the program ends with x = 0 -/
+/-- Go's semantics: from x = 2 the program ends with x = 0 (6/3 > 1); from x = -1 the division by
+    zero is never evaluated: `!(x == 0)` is false and `&&` short-circuits -/
 example : Exec (sem intPrims demo) demo.body (some [2]) .normal (some [0]) := by
   have h1 : Exec (sem intPrims demo) (.act 0) (some [2]) .normal (some [3]) := Exec.act
   have h2 : Exec (sem intPrims demo) (.act 1) (some [3]) .normal (some [0]) := Exec.act
   exact Exec.seqN h1 (Exec.iftT (by decide) h2)
+
+example : evalB intPrims [0] (.and (.not (.cmp ⟨.eq, .loc 0, .lit 0⟩)) (.cmp ⟨.gt, .bin .div (.lit 6) (.loc 0), .lit 1⟩)) = some false := by
+  decide
+
+example : runCondJ intPrims (compileB (.and (.not (.cmp ⟨.eq, .loc 0, .lit 0⟩)) (.cmp ⟨.gt, .bin .div (.lit 6) (.loc 0), .lit 1⟩)))
+    { locals := [0], ops := [] } = some (false, { locals := [0], ops := [] }) := by
+  have h := bexpr_correct intPrims (by intro b; cases b <;> decide)
+    (.and (.not (.cmp ⟨.eq, .loc 0, .lit 0⟩)) (.cmp ⟨.gt, .bin .div (.lit 6) (.loc 0), .lit 1⟩)) [] { locals := [0], ops := [] }
+  have he : evalB intPrims [0] (.and (.not (.cmp ⟨.eq, .loc 0, .lit 0⟩)) (.cmp ⟨.gt, .bin .div (.lit 6) (.loc 0), .lit 1⟩)) = some false := by
+    decide
+  simp only [List.append_nil, runJ_nil] at h
+  rw [runCondJ, h, he]
+  rfl
 
 end Goat.Props.C01
 
@@ -231,6 +411,7 @@ end Goat.Props.C01
 #print axioms Goat.Props.C01.cond_correct
 #print axioms Goat.Props.C01.leavesOK
 #print axioms Goat.Props.C01.minigo_correct
+#print axioms Goat.Props.C01.bexpr_correct
 #print axioms Goat.Props.C01.leaf_steps_are_real
 
 namespace Goat.Props.C01
